@@ -23,7 +23,9 @@ WRITER = ('src/geophires_x/Outputs.py', 'Outputs', 'PrintOutputs')
 # writers whose text is appended to the same report when add-ons / S-DAC-GT are enabled (called from print_outputs_rich)
 EXTRA_WRITERS = {'addons': ('src/geophires_x/OutputsAddOns.py', 'OutputsAddOns', 'PrintOutputs'),
                  'sdac': ('src/geophires_x/OutputsS_DAC_GT.py', 'OutputsS_DAC_GT', 'PrintOutputs')}
-ID_BASE = {'main': 0, 'addons': 10000, 'sdac': 20000}
+# the writer used INSTEAD of Outputs.PrintOutputs for SUTRA reservoir runs (Model.outputs is then a SUTRAOutputs)
+ALT_WRITERS = {'sutra': ('src/geophires_x/SUTRAOutputs.py', 'SUTRAOutputs', 'PrintOutputs')}
+ID_BASE = {'main': 0, 'addons': 10000, 'sdac': 20000, 'sutra': 30000}
 IGNORED_CALL_PREFIXES = ('model.logger.', 'print_outputs_rich(', 'print(')
 IGNORED_SET_RE = r'^pd\.|\.reset_index\(\)$'
 IGNORED_CALL_RE = r'^[A-Za-z_]\w*\.append\('     # rows collected for the rich/HTML output (not claimed)
@@ -229,14 +231,14 @@ def extract_one(writer, id_base=0, repo=None):
 def extract(repo=None):
     """the main writer's tree, with the trees of the appended writers under 'addons' / 'sdac'"""
     tree = extract_one(WRITER, ID_BASE['main'], repo)
-    for k, w in EXTRA_WRITERS.items():
+    for k, w in {**EXTRA_WRITERS, **ALT_WRITERS}.items():
         tree[k] = extract_one(w, ID_BASE[k], repo)
     return tree
 
 
 def parts_of(tree):
     """[(writer key, sub-tree)]"""
-    return [('main', tree)] + [(k, tree[k]) for k in EXTRA_WRITERS if k in tree]
+    return [('main', tree)] + [(k, tree[k]) for k in {**EXTRA_WRITERS, **ALT_WRITERS} if k in tree]
 
 
 def writes(tree):
@@ -291,7 +293,7 @@ def g(ctx):
     lines = ['(* GENERATED by tools/gen/c09_report.py from ' + WRITER[0] + ' - do not edit *)',
              'From Coq Require Import String Ascii List.', 'From Verif Require Import Model.Report.', 'Import ListNotations.',
              'Open Scope string_scope.', '',
-             '(* (source line, in a per-year loop?, template) of every f.write of Outputs / OutputsAddOns / OutputsS_DAC_GT .PrintOutputs *)',
+             '(* (source line, in a per-year loop?, template) of every f.write of Outputs / OutputsAddOns / OutputsS_DAC_GT / SUTRAOutputs .PrintOutputs *)',
              'Definition report_templates : list (nat * bool * list seg) := [']
     rows = []
     for c, n in ws:
